@@ -35,7 +35,10 @@ RULE = (
     "in [-1,1] and mindist>0, KNeighbors() / k=1 with mean/median/max, Linear/Cubic with rescale on/off, ScipyGridder "
     "linear/nearest/cubic, Chains [Trend(0..2), exact], nested Chains, Vectors of exact gridders and of Chains, vector Chains "
     "ending in VectorSpline2D) and predicted at the fitted coordinates (also after the caller overwrote its own arrays); "
-    "HISTORY stream: the same Spline / VectorSpline2D / KNeighbors / Linear / Cubic / Trend / Chain / Vector object fitted again (after predict / grid / "
+    "FORCES_ORDER stream: undamped Spline / VectorSpline2D (alone and as the last step of a Chain) with EXPLICIT force_coords that are the data points "
+    "listed in the same order, reversed, sorted, shuffled or as np.unique output, held in tuples / lists of arrays, 2-D arrays, lists of floats or "
+    "strided column views (still 'forces at the data': the square system is not symmetric then); SPELLINGS stream: k, mindist, poisson, degree, rescale "
+    "given as Python int, numpy integer, numpy floating or 0-d array; HISTORY stream: the same Spline / VectorSpline2D / KNeighbors / Linear / Cubic / Trend / Chain / Vector object fitted again (after predict / grid / "
     "filter / score or directly; other locations, smaller / equal / larger size, other layouts; the caller's buffers re-used with new contents), "
     "re-configured to an exact configuration through set_params or attribute assignment after or before first use (also through instances held in "
     "a Chain / Vector) and fitted validly after a fit() that raised ValueError on other coordinates; "
@@ -61,8 +64,8 @@ ASSUMPTIONS = [
     "the fitted points are pairwise distinct (cases with duplicates are skipped, the statement quantifies over distinct points)",
 ]
 FLOORS = {
-    "quick": {'eval:spline_exact': 414, 'eval:vspline_exact': 90, 'eval:knn_exact': 264, 'eval:scipy_exact': 490, 'eval:chain_exact': 184, 'eval:vector_exact': 53, 'eval:trend_reproduction': 586, 'informative_kappa_ge_1e6:spline': 75, 'informative_kappa_ge_1e6:trend': 115, 'distinct_nontrivial': 1350, 'layout:coordinates:2d_fortran': 150, 'layout:coordinates:2d_transposed_view': 140, 'layout:coordinates:2d_strided': 150, 'layout:coordinates:1d_series': 250, 'layout:data:2d_fortran': 70, 'layout:data:2d_transposed_view': 80, 'layout:data:2d_strided': 80, 'layout:data:2d_negative_stride': 80, 'layout:data:1d_series': 140, 'layout:data_laid_out_differently_from_coordinates': 800, 'data_magnitude:1e+00': 683, 'data_magnitude:1e+03': 64, 'data_magnitude:1e+06': 56, 'data_magnitude:1e+09': 55, 'data_magnitude:1e+12': 48, 'data_magnitude:1e+15': 63, 'data_magnitude:1e-03': 52, 'data_magnitude:1e-06': 48, 'data_magnitude:1e-09': 55, 'data_magnitude:1e-12': 56, 'data_magnitude:1e-15': 48, 'size_class:knn:127': 1, 'size_class:knn:128': 1, 'size_class:knn:129': 1, 'size_class:knn:255': 1, 'size_class:knn:256': 1, 'size_class:knn:257': 1, 'size_class:knn:385': 1, 'size_class:knn:513': 1, 'size_class:linear:127': 1, 'size_class:linear:128': 1, 'size_class:linear:129': 1, 'size_class:linear:255': 1, 'size_class:linear:256': 1, 'size_class:linear:257': 1, 'size_class:linear:385': 1, 'size_class:linear:513': 1, 'size_class:spline:127': 1, 'size_class:spline:128': 1, 'size_class:spline:129': 1, 'size_class:spline:255': 1, 'size_class:spline:256': 1, 'size_class:spline:257': 1, 'size_class:spline:385': 1, 'size_class:spline:513': 1, 'size_class:vspline:127': 1, 'size_class:vspline:128': 1, 'size_class:vspline:129': 1, 'size_class:vspline:255': 1, 'size_class:vspline:256': 1, 'size_class:vspline:257': 1, 'size_class:vspline:385': 1, 'size_class:vspline:513': 1, 'history:error_then_fit:chain': 2, 'history:error_then_fit:cubic': 2, 'history:error_then_fit:knn': 2, 'history:error_then_fit:linear': 2, 'history:error_then_fit:spline': 2, 'history:error_then_fit:trend': 2, 'history:error_then_fit:vector': 2, 'history:error_then_fit:vspline': 2, 'history:held_instances_reconfigured': 7, 'history:reconfigure_after_use:chain': 2, 'history:reconfigure_after_use:cubic': 2, 'history:reconfigure_after_use:knn': 2, 'history:reconfigure_after_use:linear': 2, 'history:reconfigure_after_use:spline': 2, 'history:reconfigure_after_use:trend': 2, 'history:reconfigure_after_use:vector': 2, 'history:reconfigure_after_use:vspline': 2, 'history:reconfigure_before_use:chain': 2, 'history:reconfigure_before_use:cubic': 2, 'history:reconfigure_before_use:knn': 2, 'history:reconfigure_before_use:linear': 2, 'history:reconfigure_before_use:spline': 2, 'history:reconfigure_before_use:trend': 2, 'history:reconfigure_before_use:vector': 2, 'history:reconfigure_before_use:vspline': 2, 'history:refit_after_use:chain': 2, 'history:refit_after_use:cubic': 2, 'history:refit_after_use:knn': 2, 'history:refit_after_use:linear': 2, 'history:refit_after_use:spline': 2, 'history:refit_after_use:trend': 2, 'history:refit_after_use:vector': 2, 'history:refit_after_use:vspline': 2, 'history:refit_directly:chain': 2, 'history:refit_directly:cubic': 2, 'history:refit_directly:knn': 2, 'history:refit_directly:linear': 2, 'history:refit_directly:spline': 2, 'history:refit_directly:trend': 2, 'history:refit_directly:vector': 2, 'history:refit_directly:vspline': 2, 'history:refit_same_arrays_new_contents:chain': 2, 'history:refit_same_arrays_new_contents:cubic': 2, 'history:refit_same_arrays_new_contents:knn': 2, 'history:refit_same_arrays_new_contents:linear': 2, 'history:refit_same_arrays_new_contents:spline': 2, 'history:refit_same_arrays_new_contents:trend': 2, 'history:refit_same_arrays_new_contents:vector': 2, 'history:refit_same_arrays_new_contents:vspline': 2, 'history:size_change:equal': 21, 'history:size_change:larger': 28, 'history:size_change:smaller': 21, 'history:use:filter': 9, 'history:use:grid': 6, 'history:use:nothing': 7, 'history:use:predict_data': 4, 'history:use:predict_elsewhere': 8, 'history:use:score': 7, 'history:via_attribute_assignment': 10, 'history:via_set_params': 11, 'fit_raised:vspline:ValueError': 2},
-    "thorough": {'eval:spline_exact': 7459, 'eval:vspline_exact': 1627, 'eval:knn_exact': 4766, 'eval:scipy_exact': 8834, 'eval:chain_exact': 3312, 'eval:vector_exact': 957, 'eval:trend_reproduction': 10548, 'informative_kappa_ge_1e6:spline': 1500, 'informative_kappa_ge_1e6:trend': 2300, 'distinct_nontrivial': 27000, 'layout:coordinates:2d_fortran': 3000, 'layout:coordinates:2d_transposed_view': 2800, 'layout:coordinates:2d_strided': 3000, 'layout:coordinates:1d_series': 5000, 'layout:data:2d_fortran': 1400, 'layout:data:2d_transposed_view': 1600, 'layout:data:2d_strided': 1600, 'layout:data:2d_negative_stride': 1600, 'layout:data:1d_series': 2800, 'layout:data_laid_out_differently_from_coordinates': 16000, 'data_magnitude:1e+00': 12294, 'data_magnitude:1e+03': 1152, 'data_magnitude:1e+06': 1008, 'data_magnitude:1e+09': 990, 'data_magnitude:1e+12': 864, 'data_magnitude:1e+15': 1134, 'data_magnitude:1e-03': 936, 'data_magnitude:1e-06': 864, 'data_magnitude:1e-09': 990, 'data_magnitude:1e-12': 1008, 'data_magnitude:1e-15': 864, 'size_class:knn:127': 8, 'size_class:knn:128': 8, 'size_class:knn:129': 8, 'size_class:knn:255': 8, 'size_class:knn:256': 8, 'size_class:knn:257': 8, 'size_class:knn:385': 8, 'size_class:knn:513': 8, 'size_class:linear:127': 8, 'size_class:linear:128': 8, 'size_class:linear:129': 8, 'size_class:linear:255': 8, 'size_class:linear:256': 8, 'size_class:linear:257': 8, 'size_class:linear:385': 8, 'size_class:linear:513': 8, 'size_class:spline:127': 8, 'size_class:spline:128': 8, 'size_class:spline:129': 8, 'size_class:spline:255': 8, 'size_class:spline:256': 8, 'size_class:spline:257': 8, 'size_class:spline:385': 8, 'size_class:spline:513': 8, 'size_class:vspline:127': 8, 'size_class:vspline:128': 8, 'size_class:vspline:129': 8, 'size_class:vspline:255': 8, 'size_class:vspline:256': 8, 'size_class:vspline:257': 8, 'size_class:vspline:385': 8, 'size_class:vspline:513': 8, 'history:error_then_fit:chain': 32, 'history:error_then_fit:cubic': 32, 'history:error_then_fit:knn': 32, 'history:error_then_fit:linear': 32, 'history:error_then_fit:spline': 32, 'history:error_then_fit:trend': 32, 'history:error_then_fit:vector': 32, 'history:error_then_fit:vspline': 32, 'history:held_instances_reconfigured': 129, 'history:reconfigure_after_use:chain': 32, 'history:reconfigure_after_use:cubic': 32, 'history:reconfigure_after_use:knn': 32, 'history:reconfigure_after_use:linear': 32, 'history:reconfigure_after_use:spline': 32, 'history:reconfigure_after_use:trend': 32, 'history:reconfigure_after_use:vector': 32, 'history:reconfigure_after_use:vspline': 32, 'history:reconfigure_before_use:chain': 32, 'history:reconfigure_before_use:cubic': 32, 'history:reconfigure_before_use:knn': 32, 'history:reconfigure_before_use:linear': 32, 'history:reconfigure_before_use:spline': 32, 'history:reconfigure_before_use:trend': 32, 'history:reconfigure_before_use:vector': 32, 'history:reconfigure_before_use:vspline': 32, 'history:refit_after_use:chain': 32, 'history:refit_after_use:cubic': 32, 'history:refit_after_use:knn': 32, 'history:refit_after_use:linear': 32, 'history:refit_after_use:spline': 32, 'history:refit_after_use:trend': 32, 'history:refit_after_use:vector': 32, 'history:refit_after_use:vspline': 32, 'history:refit_directly:chain': 32, 'history:refit_directly:cubic': 32, 'history:refit_directly:knn': 32, 'history:refit_directly:linear': 32, 'history:refit_directly:spline': 32, 'history:refit_directly:trend': 32, 'history:refit_directly:vector': 32, 'history:refit_directly:vspline': 32, 'history:refit_same_arrays_new_contents:chain': 32, 'history:refit_same_arrays_new_contents:cubic': 32, 'history:refit_same_arrays_new_contents:knn': 32, 'history:refit_same_arrays_new_contents:linear': 32, 'history:refit_same_arrays_new_contents:spline': 32, 'history:refit_same_arrays_new_contents:trend': 32, 'history:refit_same_arrays_new_contents:vector': 32, 'history:refit_same_arrays_new_contents:vspline': 32, 'history:size_change:equal': 394, 'history:size_change:larger': 513, 'history:size_change:smaller': 388, 'history:use:filter': 172, 'history:use:grid': 118, 'history:use:nothing': 129, 'history:use:predict_data': 81, 'history:use:predict_elsewhere': 145, 'history:use:score': 129, 'history:via_attribute_assignment': 183, 'history:via_set_params': 205, 'fit_raised:vspline:ValueError': 32},
+    "quick": {'eval:spline_exact': 450, 'eval:vspline_exact': 133, 'eval:knn_exact': 271, 'eval:scipy_exact': 497, 'eval:chain_exact': 201, 'eval:vector_exact': 53, 'eval:trend_reproduction': 598, 'informative_kappa_ge_1e6:spline': 75, 'informative_kappa_ge_1e6:trend': 115, 'distinct_nontrivial': 1350, 'layout:coordinates:2d_fortran': 150, 'layout:coordinates:2d_transposed_view': 140, 'layout:coordinates:2d_strided': 150, 'layout:coordinates:1d_series': 250, 'layout:data:2d_fortran': 70, 'layout:data:2d_transposed_view': 80, 'layout:data:2d_strided': 80, 'layout:data:2d_negative_stride': 80, 'layout:data:1d_series': 140, 'layout:data_laid_out_differently_from_coordinates': 800, 'data_magnitude:1e+00': 683, 'data_magnitude:1e+03': 64, 'data_magnitude:1e+06': 56, 'data_magnitude:1e+09': 55, 'data_magnitude:1e+12': 48, 'data_magnitude:1e+15': 63, 'data_magnitude:1e-03': 52, 'data_magnitude:1e-06': 48, 'data_magnitude:1e-09': 55, 'data_magnitude:1e-12': 56, 'data_magnitude:1e-15': 48, 'size_class:knn:127': 1, 'size_class:knn:128': 1, 'size_class:knn:129': 1, 'size_class:knn:255': 1, 'size_class:knn:256': 1, 'size_class:knn:257': 1, 'size_class:knn:385': 1, 'size_class:knn:513': 1, 'size_class:linear:127': 1, 'size_class:linear:128': 1, 'size_class:linear:129': 1, 'size_class:linear:255': 1, 'size_class:linear:256': 1, 'size_class:linear:257': 1, 'size_class:linear:385': 1, 'size_class:linear:513': 1, 'size_class:spline:127': 1, 'size_class:spline:128': 1, 'size_class:spline:129': 1, 'size_class:spline:255': 1, 'size_class:spline:256': 1, 'size_class:spline:257': 1, 'size_class:spline:385': 1, 'size_class:spline:513': 1, 'size_class:vspline:127': 1, 'size_class:vspline:128': 1, 'size_class:vspline:129': 1, 'size_class:vspline:255': 1, 'size_class:vspline:256': 1, 'size_class:vspline:257': 1, 'size_class:vspline:385': 1, 'size_class:vspline:513': 1, 'history:error_then_fit:chain': 2, 'history:error_then_fit:cubic': 2, 'history:error_then_fit:knn': 2, 'history:error_then_fit:linear': 2, 'history:error_then_fit:spline': 2, 'history:error_then_fit:trend': 2, 'history:error_then_fit:vector': 2, 'history:error_then_fit:vspline': 2, 'history:held_instances_reconfigured': 7, 'history:reconfigure_after_use:chain': 2, 'history:reconfigure_after_use:cubic': 2, 'history:reconfigure_after_use:knn': 2, 'history:reconfigure_after_use:linear': 2, 'history:reconfigure_after_use:spline': 2, 'history:reconfigure_after_use:trend': 2, 'history:reconfigure_after_use:vector': 2, 'history:reconfigure_after_use:vspline': 2, 'history:reconfigure_before_use:chain': 2, 'history:reconfigure_before_use:cubic': 2, 'history:reconfigure_before_use:knn': 2, 'history:reconfigure_before_use:linear': 2, 'history:reconfigure_before_use:spline': 2, 'history:reconfigure_before_use:trend': 2, 'history:reconfigure_before_use:vector': 2, 'history:reconfigure_before_use:vspline': 2, 'history:refit_after_use:chain': 2, 'history:refit_after_use:cubic': 2, 'history:refit_after_use:knn': 2, 'history:refit_after_use:linear': 2, 'history:refit_after_use:spline': 2, 'history:refit_after_use:trend': 2, 'history:refit_after_use:vector': 2, 'history:refit_after_use:vspline': 2, 'history:refit_directly:chain': 2, 'history:refit_directly:cubic': 2, 'history:refit_directly:knn': 2, 'history:refit_directly:linear': 2, 'history:refit_directly:spline': 2, 'history:refit_directly:trend': 2, 'history:refit_directly:vector': 2, 'history:refit_directly:vspline': 2, 'history:refit_same_arrays_new_contents:chain': 2, 'history:refit_same_arrays_new_contents:cubic': 2, 'history:refit_same_arrays_new_contents:knn': 2, 'history:refit_same_arrays_new_contents:linear': 2, 'history:refit_same_arrays_new_contents:spline': 2, 'history:refit_same_arrays_new_contents:trend': 2, 'history:refit_same_arrays_new_contents:vector': 2, 'history:refit_same_arrays_new_contents:vspline': 2, 'history:size_change:equal': 21, 'history:size_change:larger': 28, 'history:size_change:smaller': 21, 'history:use:filter': 9, 'history:use:grid': 6, 'history:use:nothing': 7, 'history:use:predict_data': 4, 'history:use:predict_elsewhere': 8, 'history:use:score': 7, 'history:via_attribute_assignment': 10, 'history:via_set_params': 11, 'fit_raised:vspline:ValueError': 2, 'explicit_forces_at_the_data:spline:other_order': 16, 'explicit_forces_at_the_data:spline:same_order': 4, 'explicit_forces_at_the_data:vspline:other_order': 16, 'explicit_forces_at_the_data:vspline:same_order': 4, 'forces_container:list_of_arrays': 6, 'forces_container:strided_columns': 14, 'forces_container:tuple_of_2d_arrays': 6, 'forces_container:tuple_of_arrays': 6, 'forces_container:tuple_of_lists': 6, 'forces_order:chain_spline:np_unique': 2, 'forces_order:chain_spline:reversed': 2, 'forces_order:chain_spline:same_order': 2, 'forces_order:chain_spline:shuffled': 2, 'forces_order:chain_spline:sorted': 2, 'forces_order:chain_vspline:np_unique': 2, 'forces_order:chain_vspline:reversed': 2, 'forces_order:chain_vspline:same_order': 2, 'forces_order:chain_vspline:shuffled': 2, 'forces_order:chain_vspline:sorted': 2, 'forces_order:spline:np_unique': 2, 'forces_order:spline:reversed': 2, 'forces_order:spline:same_order': 2, 'forces_order:spline:shuffled': 2, 'forces_order:spline:sorted': 2, 'forces_order:vspline:np_unique': 2, 'forces_order:vspline:reversed': 2, 'forces_order:vspline:same_order': 2, 'forces_order:vspline:shuffled': 2, 'forces_order:vspline:sorted': 2, 'spelling:knn_k:int32': 1, 'spelling:knn_k:int64': 1, 'spelling:knn_k:int8': 1, 'spelling:knn_k:uint8': 1, 'spelling:scipy_rescale:bool(False)': 1, 'spelling:scipy_rescale:bool(True)': 1, 'spelling:scipy_rescale:int(False)': 1, 'spelling:scipy_rescale:int(True)': 1, 'spelling:spline_mindist:0-d array': 1, 'spelling:spline_mindist:int': 1, 'spelling:spline_mindist:np.float32': 1, 'spelling:spline_mindist:np.int64': 1, 'spelling:trend_degree:0-d array': 1, 'spelling:trend_degree:int32': 1, 'spelling:trend_degree:int64': 1, 'spelling:trend_degree:uint8': 1, 'spelling:vspline_mindist:0-d array': 1, 'spelling:vspline_mindist:int': 1, 'spelling:vspline_mindist:np.float32': 1, 'spelling:vspline_mindist:np.int64': 1, 'spelling:vspline_poisson:float32(0.5)': 1, 'spelling:vspline_poisson:int(-1)': 1, 'spelling:vspline_poisson:int(0)': 1, 'spelling:vspline_poisson:int(1)': 1, 'spelling:vspline_poisson:int64(-1)': 1, 'spelling:vspline_poisson:int64(0)': 1, 'spelling:vspline_poisson:ndarray(0.25)': 1, 'spelling:vspline_poisson:ndarray(1)': 1},
+    "thorough": {'eval:spline_exact': 8114, 'eval:vspline_exact': 2404, 'eval:knn_exact': 4881, 'eval:scipy_exact': 8949, 'eval:chain_exact': 3628, 'eval:vector_exact': 957, 'eval:trend_reproduction': 10763, 'informative_kappa_ge_1e6:spline': 1500, 'informative_kappa_ge_1e6:trend': 2300, 'distinct_nontrivial': 27000, 'layout:coordinates:2d_fortran': 3000, 'layout:coordinates:2d_transposed_view': 2800, 'layout:coordinates:2d_strided': 3000, 'layout:coordinates:1d_series': 5000, 'layout:data:2d_fortran': 1400, 'layout:data:2d_transposed_view': 1600, 'layout:data:2d_strided': 1600, 'layout:data:2d_negative_stride': 1600, 'layout:data:1d_series': 2800, 'layout:data_laid_out_differently_from_coordinates': 16000, 'data_magnitude:1e+00': 12294, 'data_magnitude:1e+03': 1152, 'data_magnitude:1e+06': 1008, 'data_magnitude:1e+09': 990, 'data_magnitude:1e+12': 864, 'data_magnitude:1e+15': 1134, 'data_magnitude:1e-03': 936, 'data_magnitude:1e-06': 864, 'data_magnitude:1e-09': 990, 'data_magnitude:1e-12': 1008, 'data_magnitude:1e-15': 864, 'size_class:knn:127': 8, 'size_class:knn:128': 8, 'size_class:knn:129': 8, 'size_class:knn:255': 8, 'size_class:knn:256': 8, 'size_class:knn:257': 8, 'size_class:knn:385': 8, 'size_class:knn:513': 8, 'size_class:linear:127': 8, 'size_class:linear:128': 8, 'size_class:linear:129': 8, 'size_class:linear:255': 8, 'size_class:linear:256': 8, 'size_class:linear:257': 8, 'size_class:linear:385': 8, 'size_class:linear:513': 8, 'size_class:spline:127': 8, 'size_class:spline:128': 8, 'size_class:spline:129': 8, 'size_class:spline:255': 8, 'size_class:spline:256': 8, 'size_class:spline:257': 8, 'size_class:spline:385': 8, 'size_class:spline:513': 8, 'size_class:vspline:127': 8, 'size_class:vspline:128': 8, 'size_class:vspline:129': 8, 'size_class:vspline:255': 8, 'size_class:vspline:256': 8, 'size_class:vspline:257': 8, 'size_class:vspline:385': 8, 'size_class:vspline:513': 8, 'history:error_then_fit:chain': 32, 'history:error_then_fit:cubic': 32, 'history:error_then_fit:knn': 32, 'history:error_then_fit:linear': 32, 'history:error_then_fit:spline': 32, 'history:error_then_fit:trend': 32, 'history:error_then_fit:vector': 32, 'history:error_then_fit:vspline': 32, 'history:held_instances_reconfigured': 129, 'history:reconfigure_after_use:chain': 32, 'history:reconfigure_after_use:cubic': 32, 'history:reconfigure_after_use:knn': 32, 'history:reconfigure_after_use:linear': 32, 'history:reconfigure_after_use:spline': 32, 'history:reconfigure_after_use:trend': 32, 'history:reconfigure_after_use:vector': 32, 'history:reconfigure_after_use:vspline': 32, 'history:reconfigure_before_use:chain': 32, 'history:reconfigure_before_use:cubic': 32, 'history:reconfigure_before_use:knn': 32, 'history:reconfigure_before_use:linear': 32, 'history:reconfigure_before_use:spline': 32, 'history:reconfigure_before_use:trend': 32, 'history:reconfigure_before_use:vector': 32, 'history:reconfigure_before_use:vspline': 32, 'history:refit_after_use:chain': 32, 'history:refit_after_use:cubic': 32, 'history:refit_after_use:knn': 32, 'history:refit_after_use:linear': 32, 'history:refit_after_use:spline': 32, 'history:refit_after_use:trend': 32, 'history:refit_after_use:vector': 32, 'history:refit_after_use:vspline': 32, 'history:refit_directly:chain': 32, 'history:refit_directly:cubic': 32, 'history:refit_directly:knn': 32, 'history:refit_directly:linear': 32, 'history:refit_directly:spline': 32, 'history:refit_directly:trend': 32, 'history:refit_directly:vector': 32, 'history:refit_directly:vspline': 32, 'history:refit_same_arrays_new_contents:chain': 32, 'history:refit_same_arrays_new_contents:cubic': 32, 'history:refit_same_arrays_new_contents:knn': 32, 'history:refit_same_arrays_new_contents:linear': 32, 'history:refit_same_arrays_new_contents:spline': 32, 'history:refit_same_arrays_new_contents:trend': 32, 'history:refit_same_arrays_new_contents:vector': 32, 'history:refit_same_arrays_new_contents:vspline': 32, 'history:size_change:equal': 394, 'history:size_change:larger': 513, 'history:size_change:smaller': 388, 'history:use:filter': 172, 'history:use:grid': 118, 'history:use:nothing': 129, 'history:use:predict_data': 81, 'history:use:predict_elsewhere': 145, 'history:use:score': 129, 'history:via_attribute_assignment': 183, 'history:via_set_params': 205, 'fit_raised:vspline:ValueError': 32, 'explicit_forces_at_the_data:spline:other_order': 256, 'explicit_forces_at_the_data:spline:same_order': 64, 'explicit_forces_at_the_data:vspline:other_order': 256, 'explicit_forces_at_the_data:vspline:same_order': 64, 'forces_container:list_of_arrays': 96, 'forces_container:strided_columns': 224, 'forces_container:tuple_of_2d_arrays': 96, 'forces_container:tuple_of_arrays': 96, 'forces_container:tuple_of_lists': 96, 'forces_order:chain_spline:np_unique': 32, 'forces_order:chain_spline:reversed': 32, 'forces_order:chain_spline:same_order': 32, 'forces_order:chain_spline:shuffled': 32, 'forces_order:chain_spline:sorted': 32, 'forces_order:chain_vspline:np_unique': 32, 'forces_order:chain_vspline:reversed': 32, 'forces_order:chain_vspline:same_order': 32, 'forces_order:chain_vspline:shuffled': 32, 'forces_order:chain_vspline:sorted': 32, 'forces_order:spline:np_unique': 32, 'forces_order:spline:reversed': 32, 'forces_order:spline:same_order': 32, 'forces_order:spline:shuffled': 32, 'forces_order:spline:sorted': 32, 'forces_order:vspline:np_unique': 32, 'forces_order:vspline:reversed': 32, 'forces_order:vspline:same_order': 32, 'forces_order:vspline:shuffled': 32, 'forces_order:vspline:sorted': 32, 'spelling:knn_k:int32': 16, 'spelling:knn_k:int64': 16, 'spelling:knn_k:int8': 16, 'spelling:knn_k:uint8': 16, 'spelling:scipy_rescale:bool(False)': 16, 'spelling:scipy_rescale:bool(True)': 16, 'spelling:scipy_rescale:int(False)': 16, 'spelling:scipy_rescale:int(True)': 16, 'spelling:spline_mindist:0-d array': 16, 'spelling:spline_mindist:int': 16, 'spelling:spline_mindist:np.float32': 16, 'spelling:spline_mindist:np.int64': 16, 'spelling:trend_degree:0-d array': 16, 'spelling:trend_degree:int32': 16, 'spelling:trend_degree:int64': 16, 'spelling:trend_degree:uint8': 16, 'spelling:vspline_mindist:0-d array': 16, 'spelling:vspline_mindist:int': 16, 'spelling:vspline_mindist:np.float32': 16, 'spelling:vspline_mindist:np.int64': 16, 'spelling:vspline_poisson:float32(0.5)': 16, 'spelling:vspline_poisson:int(-1)': 16, 'spelling:vspline_poisson:int(0)': 16, 'spelling:vspline_poisson:int(1)': 16, 'spelling:vspline_poisson:int64(-1)': 16, 'spelling:vspline_poisson:int64(0)': 16, 'spelling:vspline_poisson:ndarray(0.25)': 16, 'spelling:vspline_poisson:ndarray(1)': 16},
 }
 JOBS = {"quick": 1, "thorough": 16}
 CASE_TIMEOUT_S = 300
@@ -70,8 +73,8 @@ CASE_TIMEOUT_S = 300
 
 def plan(tier):
     if tier == "quick":
-        return collections.OrderedDict(spline=400, vspline=130, knn=150, scipy=200, chain=220, vector=90, trend_poly=300, sizes=64, history=288)
-    return collections.OrderedDict(spline=8000, vspline=2600, knn=3000, scipy=4000, chain=4400, vector=1800, trend_poly=6000, sizes=640, history=5760)
+        return collections.OrderedDict(spline=400, vspline=130, knn=150, scipy=200, chain=220, vector=90, trend_poly=300, sizes=64, history=288, forces_order=100, spellings=96)
+    return collections.OrderedDict(spline=8000, vspline=2600, knn=3000, scipy=4000, chain=4400, vector=1800, trend_poly=6000, sizes=640, history=5760, forces_order=2000, spellings=1920)
 
 
 # ----------------------------------------------------------------------
@@ -850,6 +853,141 @@ def _fit_predict(est, coords, data, rng, run, weights=None, overwrite=()):
         return est.predict(saved)
 
 
+FORCE_ORDERS = ("same_order", "reversed", "sorted", "shuffled", "np_unique")
+FORCE_CONTAINERS = ("tuple_of_arrays", "list_of_arrays", "tuple_of_2d_arrays", "tuple_of_lists", "strided_columns")
+
+
+def _forces_order(run, rng, verde, index):
+    """Explicit force_coords that ARE the data points, listed in another order and held in another container: still 'forces at the data'."""
+    kind = ["spline", "vspline", "chain_spline", "chain_vspline"][index % 4]
+    order = FORCE_ORDERS[(index // 4) % len(FORCE_ORDERS)]
+    container = FORCE_CONTAINERS[(index // 20) % len(FORCE_CONTAINERS)] if order != "np_unique" else "strided_columns"
+    vector = "vspline" in kind
+    n = _composite_size(rng, 6, 150 if not vector else 70, big_share=0.2, big_lo=70 if not vector else 35)
+    east, north, _ = _cloud(rng, n, collinear_ok=False)
+    if order == "same_order":
+        idx = np.arange(n)
+    elif order == "reversed":
+        idx = np.arange(n)[::-1]
+    elif order == "sorted":
+        idx = np.lexsort((north, east)) if rng.random() < 0.5 else np.argsort(north, kind="stable")
+    else:
+        idx = rng.permutation(n)
+    if order == "np_unique":
+        unique = np.unique(np.stack([east, north], axis=1), axis=0)  # rows sorted lexicographically; the columns are strided views
+        fe, fn = unique[:, 0], unique[:, 1]
+    else:
+        fe, fn = east[idx].copy(), north[idx].copy()
+        if container == "strided_columns":
+            both = np.stack([fe, fn], axis=1)
+            fe, fn = both[:, 0], both[:, 1]
+    if container == "list_of_arrays":
+        forces = [fe, fn]
+    elif container == "tuple_of_2d_arrays":
+        shape = lay.logical_shape(rng, n, p_2d=1.0)
+        forces = (fe.reshape(shape), np.asfortranarray(fn.reshape(shape)) if len(shape) == 2 else fn.reshape(shape))
+    elif container == "tuple_of_lists":
+        forces = (fe.tolist(), fn.tolist())
+    else:
+        forces = (fe, fn)
+    spacing = np.hypot(np.ptp(east), np.ptp(north)) / np.sqrt(n)
+    with warnings.catch_warnings():
+        warnings.simplefilter("ignore")
+        if vector:
+            comps = (_field(run, rng, east, north), _field(run, rng, east, north))
+            est = verde.VectorSpline2D(poisson=float(rng.uniform(-1, 1)), mindist=float(spacing * gen.log_uniform(rng, 1e-2, 1.5)), force_coords=forces)
+            whole = est if kind == "vspline" else verde.Chain([("trend", verde.Vector([verde.Trend(int(rng.integers(0, 2))) for _ in range(2)])), ("interp", est)])
+        else:
+            comps = (_field(run, rng, east, north),)
+            est = verde.Spline(force_coords=forces) if rng.random() < 0.6 else verde.Spline(mindist=float(spacing * gen.log_uniform(rng, 1e-3, 0.3)), force_coords=forces)
+            whole = est if kind == "spline" else verde.Chain([("trend", verde.Trend(int(rng.integers(0, 3)))), ("interp", est)])
+    layout, shaped = _shape(rng, (east, north) + comps)
+    _count_layouts(run, layout)
+    data = tuple(shaped[2:]) if vector else shaped[2]
+    pred = _fit_predict(whole, (shaped[0], shaped[1]), data, rng, run)
+    run.count("forces_order:%s:%s" % (kind, order))
+    run.count("forces_container:" + container)
+    rec = _lookup(est)
+    run.sample("forces_order", {"estimator": _describe(whole), "order": order, "container": container, "n": n, "easting": east, "northing": north,
+                                "force_easting": fe, "force_northing": fn, "kappa": None if rec is None or rec.info is None else rec.info.get("kappa")})
+    return pred
+
+
+SPELLINGS = {
+    "knn_k": [np.int64(1), np.int32(1), np.int8(1), np.uint8(1)],
+    "spline_mindist": ["int", "np.int64", "np.float32", "0-d array"],
+    "vspline_poisson": [0, -1, 1, np.int64(0), np.int64(-1), np.float32(0.5), np.array(0.25), np.array(1)],
+    "vspline_mindist": ["int", "np.int64", "np.float32", "0-d array"],
+    "trend_degree": [np.int64, np.int32, np.uint8, "0-d array"],
+    "scipy_rescale": [np.True_, np.False_, 1, 0],
+}
+
+
+def _spell(value, how):
+    if how == "int":
+        return int(value)
+    if how == "np.int64":
+        return np.int64(value)
+    if how == "np.float32":
+        return np.float32(value)
+    return np.array(float(value))
+
+
+def _spellings(run, rng, verde, index):
+    """The same scalar parameter value written as Python int / numpy integer / numpy floating / 0-d array: the model must not change."""
+    names = sorted(SPELLINGS)
+    name = names[index % len(names)]
+    options = SPELLINGS[name]
+    option = options[(index // len(names)) % len(options)]
+    n = _composite_size(rng, 6, 120, big_share=0.15, big_lo=60)
+    scale = float(rng.choice([30.0, 100.0, 1e3, 1e4]))  # mean spacings of a few units, so that integer mindist values are sensible
+    east, north = gen.cloud(rng, n, scale=scale * np.sqrt(n) / 10, offset_factor=float(rng.choice([0.0, 1.0])))
+    spacing = np.hypot(np.ptp(east), np.ptp(north)) / np.sqrt(n)
+    comps = (_field(run, rng, east, north),)
+    claim = None
+    with warnings.catch_warnings():
+        warnings.simplefilter("ignore")
+        if name == "knn_k":
+            est = verde.KNeighbors(k=option, reduction=[np.mean, np.median][int(rng.integers(0, 2))])
+            label = type(option).__name__
+        elif name == "spline_mindist":
+            value = max(1, int(round(spacing * rng.uniform(0.05, 0.4))))
+            est = verde.Spline(mindist=_spell(value, option))
+            label = option
+        elif name == "vspline_poisson":
+            comps = comps + (_field(run, rng, east, north),)
+            est = verde.VectorSpline2D(poisson=option, mindist=float(spacing * gen.log_uniform(rng, 0.1, 1.5)))
+            label = "%s(%s)" % (type(option).__name__, np.asarray(option).item())
+        elif name == "vspline_mindist":
+            comps = comps + (_field(run, rng, east, north),)
+            value = max(1, int(round(spacing * rng.uniform(0.2, 1.2))))
+            est = verde.VectorSpline2D(poisson=float(rng.uniform(-1, 1)), mindist=_spell(value, option))
+            label = option
+        elif name == "trend_degree":
+            degree = int(rng.integers(0, 5))
+            est = verde.Trend(np.array(degree) if option == "0-d array" else option(degree))
+            vp = ref.trend_jacobian(east, north, degree)
+            mags = np.max(np.abs(vp), axis=0)
+            coefs = gen.log_uniform(rng, 1e-3, 1e6) * rng.normal(size=vp.shape[1]) / np.where(mags > 0, mags, 1.0)
+            comps = (vp @ coefs,)
+            claim = {"degree": degree, "coefs": coefs, "ref": weakref.ref(est)}
+            _S.polys[id(est)] = claim
+            label = option if isinstance(option, str) else option.__name__
+        else:
+            est = (verde.Linear if rng.random() < 0.5 else verde.Cubic)(rescale=option)
+            label = type(option).__name__ + "(%s)" % bool(option)
+    run.count("spelling:%s:%s" % (name, label))
+    layout, shaped = _shape(rng, (east, north) + comps)
+    _count_layouts(run, layout)
+    data = tuple(shaped[2:]) if len(comps) > 1 else shaped[2]
+    _fit_predict(est, (shaped[0], shaped[1]), data, rng, run)
+    if claim is not None:
+        with warnings.catch_warnings():
+            warnings.simplefilter("ignore")
+            est.predict((rng.uniform(east.min(), east.max(), 15), rng.uniform(north.min(), north.max(), 15)))
+    run.sample("spellings", {"parameter": name, "spelling": label, "estimator": _describe(est), "n": n})
+
+
 HISTORY_KINDS = ("spline", "vspline", "knn", "linear", "cubic", "trend", "chain", "vector")
 HISTORY_MODES = ("refit_after_use", "refit_directly", "refit_same_arrays_new_contents", "reconfigure_after_use", "reconfigure_before_use",
                  "error_then_fit")
@@ -1263,6 +1401,10 @@ def run_case(run, tap, stream, index, rng):
                                   "kappa_V": (_lookup(est).info or {}).get("kappa")})
     elif stream == "history":
         _history(run, rng, verde, index)
+    elif stream == "forces_order":
+        _forces_order(run, rng, verde, index)
+    elif stream == "spellings":
+        _spellings(run, rng, verde, index)
     elif stream == "sizes":
         # point counts at and around multiples of 64/128/256 on well separated jittered grids (kappa stays moderate: informative, exact)
         kind_of = ["vspline", "spline", "knn", "linear"][index % 4]
